@@ -48,6 +48,8 @@ def select(scripts, n, rng, want_runs):
         r = runs_of(s)
         return sum(1 for x in r[1:] if x["delta"]) * 2 + sum(1 for o in s["ops"] if o["op"] == "commit")
     full.sort(key=weight, reverse=True)
+    # histories in which the model takes the named deviation (ignore family) first
+    full.sort(key=lambda s: not s.get("dev", False))
     # two thirds by weight, one third uniformly from the rest
     k = (2 * n) // 3
     return full[:k] + rng.sample(full[k:], min(n - k, max(0, len(full) - k)))
